@@ -13,6 +13,8 @@ import (
 	"encoding/json"
 	"fmt"
 	"os"
+	"os/exec"
+	"strconv"
 	"strings"
 	"sync"
 	"syscall"
@@ -34,9 +36,22 @@ type ChildSpec struct {
 	Reg  RegSpec `json:"reg,omitempty"`
 	C02  *C02Reg `json:"c02,omitempty"`
 	Slow int     `json:"slow_ms,omitempty"`
+	// Helper: the child starts a helper process of its own that inherits its stdout / stderr and outlives it by this many
+	// seconds (a launcher-style server: npx, a shell wrapper)
+	Helper int `json:"helper_s,omitempty"`
 }
 
 func TestMain(m *testing.M) {
+	if os.Getenv("VERIF_CHILD") == "helper" {
+		// lives until its parent is gone, then a little longer, holding the inherited descriptors open
+		linger, _ := strconv.Atoi(os.Getenv("VERIF_HELPER_LINGER"))
+		parent := os.Getppid()
+		for i := 0; i < 3000 && os.Getppid() == parent; i++ {
+			time.Sleep(10 * time.Millisecond)
+		}
+		time.Sleep(time.Duration(linger) * time.Second)
+		os.Exit(0)
+	}
 	if role := os.Getenv("VERIF_CHILD"); role != "" {
 		runChild()
 		return
@@ -64,6 +79,13 @@ func runChild() {
 		os.Exit(3)
 	}
 	Quiet()
+	if spec.Helper > 0 {
+		exe, _ := os.Executable()
+		h := exec.Command(exe, "-test.run", "^$")
+		h.Env = append(os.Environ(), "VERIF_CHILD=helper", fmt.Sprintf("VERIF_HELPER_LINGER=%d", spec.Helper))
+		h.Stdout, h.Stderr = os.Stdout, os.Stderr
+		h.Start()
+	}
 	switch spec.Role {
 	case "server", "c01":
 		srv := mcp.NewStdioServer("verif-child", "1", mcp.WithStdioServerLogger(nopLogger{}))
